@@ -95,6 +95,13 @@ func TestC07(t *testing.T) {
 		}
 		idx++
 	}
+	// the reset Write held up for less than its bound
+	for _, sc := range c07ResetWriteSlowScenarios(thorough()) {
+		if want(idx) {
+			runCwScenario(t, idx, "c07", sc, em)
+		}
+		idx++
+	}
 	// regression of D-07s with the forced schedule (the select of the loop's Read is random: 40 repetitions)
 	for i := 0; i < 40; i++ {
 		if want(idx) {
@@ -186,6 +193,10 @@ func TestC06(t *testing.T) {
 		} else {
 			run("c06-e2e", sc)
 		}
+	}
+	// the cancellation inside NewStream's transport Write (C07's family): the client-direction automaton on the wire
+	for _, sc := range c07OpenCancelScenarios() {
+		run("c06-e2e", sc)
 	}
 	for _, sc := range c06UnknownMethod() {
 		if sc.Mode == "server" {
